@@ -1,6 +1,10 @@
 pub mod c01;
 pub mod c02;
 pub mod c07;
+pub mod c10;
+pub mod c11;
+pub mod c18;
+pub mod docpool;
 
 use crate::report::Report;
 use automerge::TextEncoding;
@@ -37,6 +41,9 @@ pub fn run(prop: &str, args: &Args) -> i32 {
         "C01" => c01::run(args),
         "C02" => c02::run(args),
         "C07" => c07::run(args),
+        "C10" => c10::run(args),
+        "C11" => c11::run(args),
+        "C18" => c18::run(args),
         _ => {
             eprintln!("unknown property {}", prop);
             2
